@@ -265,13 +265,16 @@ def sig_hash_on_dirty_tree_iv(lines, d):
             for tok in a[1:]:
                 if tok.startswith("iv=") and tok != "iv=-":
                     iv = int(tok[3:])
+        elif a[0] == "setiv":
+            iv = int(a[1])
         elif a[0] in ("set", "rm"):
             dirty = True
-        elif a[0] in ("hash", "proof", "memproof", "nonmemproof") and dirty and iv is not None and iv > 1:
+        elif a[0] in ("hash", "whash", "proof", "memproof", "nonmemproof") and dirty and iv is not None and iv > 1:
             queried = True
         elif a[0] == "save":
             break
-    return queried and ("hash" in (d["impl"] or "") or d["line"].split()[0] in ("save", "hash", "whash", "lhash", "imm"))
+    # (K5r: only the read-only queries on that dirty tree; the commit itself was repaired, K5)
+    return queried and d["line"].split()[0] in ("hash", "whash", "proof", "memproof", "nonmemproof")
 
 
 def sig_empty_value_proof(lines, d):
